@@ -12,7 +12,7 @@ class CXX2C(Emitter, ExprMixin, LibMixin, StmtMixin):
     def __init__(self, unit, objs):
         self.hooks = collections.defaultdict(list)
         self.enum_defs = collections.OrderedDict(); self.enum_vals = {}
-        self.pending_defaults = collections.OrderedDict()
+        self.pending_defaults = collections.OrderedDict(); self.lambda_vars = {}; self.root_ids = set()
         self.used_records = collections.OrderedDict()
         self.cur_fn = None; self.cur_cname = None
         self.vars = {}; self.pre = []; self.iter_of = {}; self.iter_ty = {}; self.range_cleanup = []
@@ -78,6 +78,7 @@ class CXX2C(Emitter, ExprMixin, LibMixin, StmtMixin):
                 first = d
                 while 'previousDecl' in first and first['previousDecl'] in self.byid: first = self.byid[first['previousDecl']]
                 cn = self.fn_cname(first); self.cnames[d['id']] = cn
+                self.root_ids.add(d['id'])
                 self.want(d)
         # every record the unit description declares transparent gets its C type, used or not: stubs in the spec files
         # may mention it even when an edit of the repository stops using it
